@@ -274,7 +274,7 @@ static int recv_events(m_ctx_t *c, int timeout) {
              * a m_mod_deregister() call by user callback
              * invalidates our pointer.
              */
-            m_mod_t *mod = p->mod;
+            m_mod_t *mod = m_mem_ref(p->mod);
             evt_priv_t *evt = new_evt(p);
             m_evt_t *msg = NULL;
             if (evt) {
@@ -294,6 +294,7 @@ static int recv_events(m_ctx_t *c, int timeout) {
                  */
                 err = 0;
                 m_mem_unref(evt);
+                m_mem_unref(mod);
                 continue;
             }
             bool msg_consumed = false;
@@ -352,6 +353,7 @@ static int recv_events(m_ctx_t *c, int timeout) {
                  */
                 m_mem_unref(evt);
             }
+            m_mem_unref(mod);
         } else {
             /* Nothing to be done for this one; go on with the batch */
             M_WARN("Received message without proper source: src -> %p\n", p);
